@@ -599,7 +599,7 @@ func genCase(r *rng.R, opt *config.PersistOptions, wb, enc bool, a c07x.Alphabet
 	g.raw(hop{K: "snap"})
 	busy := map[int]bool{}
 	pick := func() c07x.Region {
-		switch k := r.Pick(45, 15, 15, 10, 15); {
+		switch k := r.Pick(45, 15, 15, 10, 15, 10); {
 		case k == 0 || len(sent) == 0: // a history event, then the heartbeat of a region it changed
 			idx := sim.Step(r)
 			i := r.Intn(len(sim.Regions))
@@ -620,6 +620,11 @@ func genCase(r *rng.R, opt *config.PersistOptions, wb, enc bool, a c07x.Alphabet
 		case k == 3: // duplicate of the most recent one
 			c.tags["hb:duplicate"]++
 			return sent[len(sent)-1].Clone()
+		case k == 5: // an idle region whose leader was re-elected: the same report (same statistics, same stamp) with a higher term
+			c.tags["hb:term-only"]++
+			y := sent[len(sent)-1-r.Intn((len(sent)+1)/2)].Clone()
+			y.Term += uint64(1 + r.Intn(3))
+			return y
 		default: // arbitrary well-formed region with arbitrary epoch: overlaps, swallows, stale versions
 			stamp++
 			x := c07x.RandomValid(a, r, 10, 4, stamp)
@@ -748,6 +753,53 @@ func flushRaceCase(opt *config.PersistOptions) hcase {
 	g.raw(hop{K: "hb", R: &b}) // displaces region 1 while the flush is in progress
 	g.raw(hop{K: "snap", IDs: g.idList()})
 	g.step(hop{K: "flush"})
+	return c
+}
+
+// regression (repaired in /repo: a higher reported term alone is a reason to write the cache): term 6 leader 11; then the same idle
+// region with term 8 (answered OK, must be remembered); then the delayed term-7 heartbeat of peer 12 must be rejected.
+func termOnlyCase(opt *config.PersistOptions) hcase {
+	c := hcase{WB: false, tags: map[string]int{"regression:term-only-heartbeat": 1}}
+	w := newWorld(false, opt)
+	defer w.close()
+	g := &gen{r: rng.New(1), w: w, c: &c, ids: map[uint64]bool{}, last: time.Now()}
+	g.raw(hop{K: "snap"})
+	p := []c07x.Peer{{ID: 11, Store: 1}, {ID: 12, Store: 2}, {ID: 13, Store: 3}}
+	x := c07x.Region{ID: 1, Start: "a", End: "c", Peers: p, Leader: 11, Size: 10, Ver: 1, ConfVer: 1, Term: 6, Stamp: 1}
+	y := x.Clone()
+	y.Term = 8
+	z := x.Clone()
+	z.Term, z.Leader = 7, 12
+	g.step(hop{K: "hb", R: &x})
+	g.step(hop{K: "hb", R: &y})
+	g.step(hop{K: "hb", R: &z})
+	return c
+}
+
+// known finding (KNOWN_FINDINGS.txt): a region displaced from the cache leaves no memory of its epoch and term.  Region 1 is served
+// with version 4 / term 7; a split child that reports first displaces it; the delayed heartbeat of region 1 with version 2 / term 6
+// over keys whose present owner has not reported yet is accepted.
+func displacedMemoryCase(opt *config.PersistOptions) hcase {
+	c := hcase{WB: false, tags: map[string]int{"finding:displaced-region-forgets-its-epoch": 1}}
+	w := newWorld(false, opt)
+	defer w.close()
+	g := &gen{r: rng.New(1), w: w, c: &c, ids: map[uint64]bool{}, last: time.Now()}
+	g.raw(hop{K: "snap"})
+	ps := func(id uint64) []c07x.Peer {
+		return []c07x.Peer{{ID: id*10 + 1, Store: 1}, {ID: id*10 + 2, Store: 2}, {ID: id*10 + 3, Store: 3}}
+	}
+	mk := func(id uint64, s, e string, leader, ver, term uint64, stamp int64) *c07x.Region {
+		return &c07x.Region{ID: id, Start: s, End: e, Peers: ps(id), Leader: leader, Size: 10, Ver: ver, ConfVer: 1, Term: term, Stamp: stamp}
+	}
+	for _, r := range []*c07x.Region{
+		mk(1, "", "c", 11, 2, 6, 1), mk(2, "c", "", 21, 2, 6, 2), // 1 = ["","c"), 2 = ["c","")
+		mk(1, "", "", 12, 3, 7, 3),   // leader moves, 2 merged into 1
+		mk(1, "m", "", 12, 4, 7, 4),  // 1 splits at "m", keeps ["m","")
+		mk(4, "m", "t", 41, 5, 7, 5), // the child ["m","t") of the next split reports first: displaces 1
+		mk(1, "", "c", 11, 2, 6, 6),  // the delayed heartbeat of the first step
+	} {
+		g.step(hop{K: "hb", R: r})
+	}
 	return c
 }
 
@@ -916,6 +968,8 @@ func main() {
 		emit(autoFlushRegression(opt))
 		emit(overtakenSaveProbe(opt, false)) // direct backend only: a save into the write-back batch is not a kv write the harness can park
 		emit(termProbe(opt))
+		emit(termOnlyCase(opt))
+		emit(displacedMemoryCase(opt))
 		emit(checkThenPutCase(opt, false))
 		emit(checkThenPutCase(opt, true))
 		emit(flushRaceCase(opt))
